@@ -158,6 +158,13 @@ def run_property(modname, tier, seed, replay=None, jobs=None):
     ctx = Ctx(tier, seed)
     if hasattr(mod, "setup"):
         mod.setup(ctx)
+    if replay and hasattr(mod, "custom_replay"):
+        ok, msg = mod.custom_replay(replay)
+        print("replay %s: %s" % (replay, msg))
+        if not ok:
+            print("VIOLATION property=%s replay=%s" % (pid, replay))
+            return 1
+        return 0
     if replay:
         data = json.load(open(replay))
         case = data["case"] if "case" in data else data
@@ -168,6 +175,21 @@ def run_property(modname, tier, seed, replay=None, jobs=None):
             return 1
         return 0
 
+    if hasattr(mod, "custom_run") and not replay:
+        out = mod.custom_run(tier, seed)
+        cov = out["coverage"]
+        cov.setdefault("rule", mod.RULE)
+        if not cov.get("samples"):
+            cov["samples"] = ["(none)"]
+        write_evidence(mod, tier, seed, time.time() - t0, cov, len(out["violations"]))
+        for l in out.get("known_lines", []):
+            print(l)
+        print("%s tier=%s seed=%d evaluations=%d nontrivial=%d wall=%.1fs" % (
+            pid, tier, seed, cov.get("evaluations", 0), cov.get("distinct_nontrivial", 0), time.time() - t0))
+        print("classes: " + json.dumps(cov.get("classes", {})))
+        for v in out["violations"]:
+            print("VIOLATION property=%s replay=%s" % (pid, v))
+        return 1 if out["violations"] else 0
     known = load_known(pid)
     violations = []
     known_lines = []
